@@ -16,7 +16,8 @@ EXPLANATION = (
     " (g) Every `false` result of is_probing_done has put the service on the probe's waiting list."
     " (h) Every retain on the rerun queue keeps the commands of other kinds (announcement repeats survive a stop_browse). (i) add_interface writes the status after every announce attempt (a stale Announced cannot cover a registry that probes again)."
     " (j) DnsRegistry::update_hostname restarts (start_time := probe_time) every probe whose records it rewrites."
-    " (e') Every write of ServiceStatus::Announced is accompanied, on the same path or by a later loop of the function, by the construction of Command::RegisterResend (no 'one is already pending' shortcut).")
+    " (e') Every write of ServiceStatus::Announced is accompanied, on the same path or by a later loop of the function, by the construction of Command::RegisterResend (no 'one is already pending' shortcut)."
+    " (k) Every iteration of the run loop calls probing_handler. (l) The name in Command::RegisterResend is the registered name (the key of my_services), never the conflict-resolved one.")
 UNDECIDED = ["'reaches the announced state within a bounded time' (liveness)", "actual spacing of probe packets on the wire",
              "several services sharing a host name (value-level interplay of probes)"]
 
@@ -327,6 +328,7 @@ def run(ctx, P):
     r2.rewritten_probe_restarts(ctx, P, "C07j")
     from . import r4
     r4.probes_driven_every_iteration(ctx, P, "C07k")
+    r4.resend_is_keyed_like_my_services(ctx, P, "C07l")
     clause_waiters(ctx, P)
     clause_a(ctx, P)
     clause_b(ctx, P)
